@@ -6,7 +6,17 @@
         `;` `}` brackets inside the literal do not end the value),
      3. the same for skip_stmt / skip_to_end_of_statement, and at-rules whose prelude contains such
         literals are CssVariants.junk_ok, hence (variant_sheet_rt / variant_rules / variants_agree are
-        parametric in junk_ok) insignificant.
+        parametric in junk_ok) insignificant (junk_at_rule_x, junk_unparsable_x,
+        junk_insert_insignificant, at_rule_with_literals_insignificant),
+     4. CssVariants' blocks / rule sets / sheets re-done over declarations whose values may hold
+        literals (xvariant_sheet_rt, xvariant_rules, xvariants_agree, xvariant_agrees_with_variant),
+     5. content: <literal> declares exactly the unescaped body (content_literal_parse).
+   Hypotheses are the decidable well-formedness checks of CssVariants (wsm whitespace fields,
+   atom_okb, achain: adjacent atoms do not merge, vdepth: brackets of a value closed) plus, for a
+   literal: the quote is 34 or 39 (quote_okb) and every item is well-formed (items_okb: a plain
+   character is not the quote / backslash / newline, an escaped character is not newline).
+   Edge cases of the loop (unterminated, trailing backslash, raw newline) are theorems of
+   section 1; they agree with src/css/parser.rs parse_string_token.
    No axioms. *)
 From H2T Require Import Base Tagged Wrap Css Dom CssParse Proofs.CssTotal Proofs.CssRoundTrip
      Proofs.CssVariants.
@@ -433,7 +443,7 @@ Proof.
   rewrite skip_to_end_xatoms by assumption. reflexivity.
 Qed.
 
-(* unparsable rule sets with literals (attribute selectors `a[href="x;y"] {..}` ...) *)
+(* unparsable rule sets with literals (attribute selectors `a[href=<dq>x;y<dq>] {..}` ...) *)
 Theorem junk_unparsable_x : forall x l, xatoms_ok (([], x) :: l) -> xchain (([], x) :: l) = true ->
   xcomplete (([], x) :: l) -> ruleset_fails (print_xatoms (([], x) :: l)) ->
   junk_ok (print_xatoms (([], x) :: l)).
@@ -467,3 +477,514 @@ Qed.
 Print Assumptions skip_to_end_xatoms.
 Print Assumptions junk_at_rule_x.
 Print Assumptions junk_unparsable_x.
+
+(* ------------------------------------------------------------------ *)
+(* 6. style sheets: a junk statement with literals, put anywhere into a variant sheet, changes
+   nothing.  (CssVariants.vsheet_ok / variant_rules / variants_agree are parametric in junk_ok, so
+   the new statements are simply more inhabitants of VJunk.) *)
+Lemma vsheet_raw_app : forall a b, vsheet_raw (a ++ b) = vsheet_raw a ++ vsheet_raw b.
+Proof. intros; unfold vsheet_raw; apply flat_map_app. Qed.
+Lemma print_vsheet_app : forall a b, print_vsheet (a ++ b) = print_vsheet a ++ print_vsheet b.
+Proof. intros; unfold print_vsheet; apply flat_map_app. Qed.
+
+Theorem junk_insert_insignificant : forall lead pre post j w,
+  wsm lead -> vsheet_ok (pre ++ post) -> junk_ok j -> wsm w ->
+  parse_css_rules (lead ++ print_vsheet (pre ++ VJunk j w :: post))
+  = parse_css_rules (lead ++ print_vsheet (pre ++ post)).
+Proof.
+  intros lead pre post j w Hlead Hok Hj Hw.
+  apply variants_agree; try assumption.
+  - unfold vsheet_ok in *. apply Forall_app in Hok. destruct Hok as [H1 H2].
+    apply Forall_app; split; [exact H1|]. apply Forall_cons; [split; assumption|exact H2].
+  - unfold vsheet_meaning. rewrite !vsheet_raw_app. reflexivity.
+Qed.
+
+(* MAIN 3 (sheet level): an at-rule whose tokens include string literals with escaped quotes, `;`,
+   braces, brackets inside - e.g. @import <dq>a\<dq>b;c.css<dq>; - is insignificant wherever it stands *)
+Theorem at_rule_with_literals_insignificant : forall lead pre post nm l w,
+  wsm lead -> vsheet_ok (pre ++ post) -> wsm w ->
+  name_okb nm = true -> xatoms_ok l -> xchain l = true -> xcomplete l -> xat_follow l = true ->
+  parse_css_rules (lead ++ print_vsheet (pre ++ VJunk (print_xat nm l) w :: post))
+  = parse_css_rules (lead ++ print_vsheet (pre ++ post)).
+Proof.
+  intros. apply junk_insert_insignificant; try assumption. apply junk_at_rule_x; assumption.
+Qed.
+
+Print Assumptions junk_insert_insignificant.
+Print Assumptions at_rule_with_literals_insignificant.
+
+(* ------------------------------------------------------------------ *)
+(* 7. non-vacuity *)
+Import String.StringSyntax.
+Definition chars (s : String.string) : list sitem := map SChar (css s).
+Arguments chars s%string.
+Ltac xatoms_tac :=
+  repeat (apply Forall_cons; [cbn [fst snd]; split; [wsm_tac|vm_compute; reflexivity]|]); apply Forall_nil.
+
+(* <dq>a\<dq>b;c.css<dq>   : escaped quote of the same kind, `;` inside *)
+Definition ex_items1 : list sitem := chars "a" ++ [SEsc (mk 34 1)] ++ chars "b;c.css".
+(* 'x\'y}{;(<dq>z\<newline>w'   : single quotes, the other quote, braces, brackets, line continuation *)
+Definition ex_items2 : list sitem :=
+  chars "x" ++ [SEsc (mk 39 1)] ++ chars "y}{;(""z" ++ [SEscNl] ++ chars "w".
+
+Example ex_lit_texts :
+  lit 34 ex_items1 = css """a\""b;c.css""" /\
+  lit 39 ex_items2 = css "'x\'y}{;(""z\" ++ of_ascii [10] ++ css "w'" /\
+  body ex_items1 = css "a""b;c.css" /\ body ex_items2 = css "x'y}{;(""zw".
+Proof. repeat split; vm_compute; reflexivity. Qed.
+
+Example ex_string_token : forall rest,
+  parse_string_token (css """a\""b;c.css""" ++ rest) = POk (TString (css "a""b;c.css")) rest.
+Proof. intros rest. apply (parse_string_token_lit 34 ex_items1 rest); reflexivity. Qed.
+Example ex_string_token2 : forall rest,
+  parse_string_token (lit 39 ex_items2 ++ rest) = POk (TString (css "x'y}{;(""zw")) rest.
+Proof. intros rest. apply (parse_string_token_lit 39 ex_items2 rest); reflexivity. Qed.
+(* edge cases, computed *)
+Example ex_string_edges :
+  parse_string_token (css """ab") = POk (TString (css "ab")) [] /\
+  parse_string_token (css """ab\") = POk (TString (css "ab")) [] /\
+  parse_string_token (css """ab" ++ of_ascii [10] ++ css "c"";") =
+    POk (TBadString (css "ab")) (of_ascii [10] ++ css "c"";") /\
+  parse_string_token (css """a\""b") = POk (TString (css "a""b")) [].
+Proof. repeat split; vm_compute; reflexivity. Qed.
+
+(* @import <dq>a\<dq>b;c.css<dq>;      and      @font-face { src: url('x\'y}{;(<dq>z\<nl>w') ; } *)
+Definition ex_xj1 : text :=
+  print_xat (s2l "import") [(sp1, XS 34 ex_items1); ([], XA (APunct 59))].
+Definition ex_xj2 : text :=
+  print_xat (s2l "font-face")
+    [(sp1, XA (APunct 123)); (sp1, XA (AIdent (s2l "src"))); ([], XA (APunct 58));
+     (sp1, XA (AFun (s2l "url"))); ([], XS 39 ex_items2); ([], XA (APunct 41));
+     (sp1, XA (APunct 59)); (sp1, XA (APunct 125))].
+Example ex_xj_texts :
+  ex_xj1 = css "@import ""a\""b;c.css"";" /\
+  ex_xj2 = css "@font-face { src: url('x\'y}{;(""z\" ++ of_ascii [10] ++ css "w') ; }".
+Proof. split; vm_compute; reflexivity. Qed.
+Example ex_xj1_ok : junk_ok ex_xj1.
+Proof. apply junk_at_rule_x; [reflexivity|xatoms_tac|reflexivity|reflexivity|reflexivity]. Qed.
+Example ex_xj2_ok : junk_ok ex_xj2.
+Proof. apply junk_at_rule_x; [reflexivity|xatoms_tac|reflexivity|reflexivity|reflexivity]. Qed.
+
+(* p{color:red} *)
+Definition ex_red_item : ditem := mkditem (s2l "color") [] [([], AIdent (s2l "red"))].
+Definition ex_red_rule : vrule :=
+  mkvrule (lift_wsp (mkwsp [] [] [] [] [] [] [] [] [] [])) [sel_of "p"]
+    (mkvblock [] [] [mkentry ex_red_item [] []]).
+Example ex_red_rule_ok : vrule_ok ex_red_rule.
+Proof.
+  unfold vrule_ok, ex_red_rule; cbn [v_ws v_sels v_block].
+  split; [apply wsp0_ok|split; [discriminate|split; [reflexivity|]]].
+  unfold block_ok; cbn [b_open b_lead b_entries seps_ok e_semis].
+  split; [apply wsm_nil|split; [apply Forall_nil|split; [|exact I]]].
+  apply Forall_cons; [|apply Forall_nil]. unfold entry_ok; cbn [e_item e_pre e_semis].
+  split; [unfold ex_red_item; ditem_tac|split; [apply wsm_nil|apply Forall_nil]].
+Qed.
+
+(* @import <dq>a\<dq>b;c.css<dq>; p{color:red}@font-face { ... }   styles like   p{color:red} *)
+Example ex_sheet_by_theorem :
+  parse_css_rules (css "@import ""a\""b;c.css""; p{color:red}" ++ ex_xj2)
+  = parse_css_rules (css "p{color:red}").
+Proof.
+  assert (H0 : vsheet_ok ([] ++ [VRule ex_red_rule]))
+    by (apply Forall_cons; [exact ex_red_rule_ok|apply Forall_nil]).
+  assert (H1 : vsheet_ok ([VRule ex_red_rule] ++ [])) by exact H0.
+  pose proof (junk_insert_insignificant [] [] [VRule ex_red_rule] ex_xj1 sp1 wsm_nil H0 ex_xj1_ok
+                ltac:(unfold sp1; wsm_tac)) as E1.
+  assert (H2 : vsheet_ok ([VJunk ex_xj1 sp1; VRule ex_red_rule] ++ [])).
+  { apply Forall_cons; [split; [exact ex_xj1_ok|unfold sp1; wsm_tac]|exact H0]. }
+  pose proof (junk_insert_insignificant [] [VJunk ex_xj1 sp1; VRule ex_red_rule] [] ex_xj2 [] wsm_nil
+                H2 ex_xj2_ok wsm_nil) as E2.
+  cbn [app] in E1, E2. rewrite E1 in E2.
+  assert (T1 : css "@import ""a\""b;c.css""; p{color:red}" ++ ex_xj2
+               = print_vsheet [VJunk ex_xj1 sp1; VRule ex_red_rule; VJunk ex_xj2 []])
+    by (vm_compute; reflexivity).
+  assert (T2 : css "p{color:red}" = print_vsheet [VRule ex_red_rule]) by (vm_compute; reflexivity).
+  rewrite T1, T2. exact E2.
+Qed.
+(* the same, and more spellings, by computation on the model *)
+Example ex_sheet_computed :
+  exists r, parse_css_rules (css "p{color:red}") = CssOk [r] /\
+  parse_css_rules (css "@import ""a\""b;c.css""; p{color:red}") = CssOk [r] /\
+  parse_css_rules (css "@import 'a\'b;c.css'; p{color:red}") = CssOk [r] /\
+  parse_css_rules (css "@import ""}{;'"" x; p{color:red}") = CssOk [r] /\
+  parse_css_rules (css "a[href=""x\""];{""]{top:0} p{color:red}") = CssOk [r] /\
+  parse_css_rules (css "p{foo: ""a\"";b}"" 'c\'d;' ; color:red}") = CssOk [r] /\
+  parse_css_rules (css "p{content-x: ""\"""" ; color:red; bar: '(' }") = CssOk [r].
+Proof. eexists. repeat split; vm_compute; reflexivity. Qed.
+
+(* an unknown declaration whose value holds literals with `;` `}` and escaped quotes:
+   foo: <dq>a\<dq>;b}<dq> 'c\'d;' url( <dq>;)<dq> )      ends at the first `;` outside literals *)
+Definition ex_xitem : xditem :=
+  mkxditem (s2l "Foo") []
+    [(sp1, XS 34 (chars "a" ++ [SEsc (mk 34 1)] ++ chars ";b}"));
+     (sp1, XS 39 (chars "c" ++ [SEsc (mk 39 1)] ++ chars "d;"));
+     (sp1, XA (AFun (s2l "url"))); (sp1, XS 34 (chars ";)")); (sp1, XA (APunct 41))].
+Example ex_xitem_ok : xditem_ok ex_xitem.
+Proof.
+  unfold xditem_ok, ex_xitem; cbn [xdi_name xdi_w1 xdi_val].
+  split; [vm_compute; reflexivity|split; [wsm_tac|split; [discriminate|split; [xatoms_tac|
+    split; [vm_compute; reflexivity|split; vm_compute; reflexivity]]]]].
+Qed.
+Example ex_xitem_text :
+  print_xditem ex_xitem = css "Foo: ""a\"";b}"" 'c\'d;' url( "";)"" )".
+Proof. vm_compute; reflexivity. Qed.
+Example ex_xitem_parse : forall k,
+  parse_declaration (css "Foo: ""a\"";b}"" 'c\'d;' url( "";)"" )" ++ css " ; color:red}" ++ k)
+  = POk (mkdecl DUnknown false) (css " ; color:red}" ++ k).
+Proof.
+  intros k. rewrite <- ex_xitem_text.
+  rewrite (parse_declaration_xitem ex_xitem (css " ; color:red}" ++ k) ex_xitem_ok).
+  - reflexivity.
+  - exists sp1, 59, (css " color:red}" ++ k). split; [unfold sp1; wsm_tac|split; [left; reflexivity|reflexivity]].
+Qed.
+Example ex_xitem_unknown : is_unknown (xitem_decl ex_xitem) = true.
+Proof. apply unknown_xitem. reflexivity. Qed.
+(* step lemmas, instantiated *)
+Example ex_value_step : forall f acc post,
+  value_toks_f (S f) 1 (css " ""a\"";)b}""" ++ post) acc
+  = value_toks_f f 1 post (TString (css "a"";)b}") :: acc).
+Proof.
+  intros f acc post.
+  apply (value_toks_f_lit_step f 1 sp1 34 (chars "a" ++ [SEsc (mk 34 1)] ++ chars ";)b}") post acc);
+    [unfold sp1; wsm_tac|reflexivity|reflexivity].
+Qed.
+Example ex_skip_step : forall f stack post,
+  skip_stmt (S f) (css " ""a\"";)b}""" ++ post) stack = skip_stmt f post stack.
+Proof.
+  intros f stack post.
+  apply (skip_stmt_lit_step f sp1 34 (chars "a" ++ [SEsc (mk 34 1)] ++ chars ";)b}") post stack);
+    [unfold sp1; wsm_tac|reflexivity|reflexivity].
+Qed.
+
+(* ------------------------------------------------------------------ *)
+(* 8. whole sheets whose DECLARATIONS contain literals: CssVariants' blocks / rule sets / sheets
+   re-done over [xditem] (the structure and the proofs are those of CssVariants sections 6-10) *)
+Record xentry := mkxentry { xe_item : xditem; xe_pre : text; xe_semis : list text }.
+Definition print_xentry (e : xentry) : text :=
+  print_xditem (xe_item e) ++ xe_pre e ++ print_semis (xe_semis e).
+Definition print_xentries (es : list xentry) : text := flat_map print_xentry es.
+Record xvblock := mkxvblock { xb_open : text; xb_lead : list text; xb_entries : list xentry }.
+Definition print_xblock (b : xvblock) : text :=
+  xb_open b ++ print_semis (xb_lead b) ++ print_xentries (xb_entries b).
+Definition xentry_ok (e : xentry) : Prop :=
+  xditem_ok (xe_item e) /\ wsm (xe_pre e) /\ Forall wsm (xe_semis e).
+Fixpoint xseps_ok (es : list xentry) : Prop :=
+  match es with
+  | e :: ((_ :: _) as es') => xe_semis e <> [] /\ xseps_ok es'
+  | _ => True
+  end.
+Definition xblock_ok (b : xvblock) : Prop :=
+  wsm (xb_open b) /\ Forall wsm (xb_lead b) /\
+  Forall xentry_ok (xb_entries b) /\ xseps_ok (xb_entries b).
+Definition xblock_decls (b : xvblock) : list declaration :=
+  map (fun e => xitem_decl (xe_item e)) (xb_entries b).
+
+Lemma xditem_first : forall (P : N -> bool) i k, xditem_ok i ->
+  P 45 = false -> (forall x, mstart x = true -> P x = false) -> nf P (print_xditem i ++ k).
+Proof.
+  intros P i k (Hn & _) H45 Hm. unfold print_xditem. rewrite <- !app_assoc. apply name_first; auto.
+Qed.
+
+Section XBlock.
+  Variable Z : text.
+  Let C : text := of_ascii [125] ++ Z.
+  Let after (e : xentry) (es : list xentry) : text :=
+    xe_pre e ++ print_semis (xe_semis e) ++ print_xentries es ++ C.
+
+  Lemma xvend_after : forall e es, xentry_ok e -> xseps_ok (e :: es) -> vend (after e es).
+  Proof.
+    intros e es (_ & Hpre & Hs) Hsep. unfold after.
+    destruct (xe_semis e) as [|w l] eqn:El.
+    - destruct es as [|e2 es']; [|cbn [xseps_ok] in Hsep; rewrite El in Hsep; tauto].
+      cbn [print_semis print_xentries flat_map app]. apply vend_close, Hpre.
+    - rewrite print_semis_cons, <- !app_assoc. apply vend_semi, Hpre.
+  Qed.
+
+  Lemma xentries_tail : forall es e, Forall xentry_ok (e :: es) -> xseps_ok (e :: es) ->
+    exists pre' semis', wsm pre' /\ Forall wsm semis' /\
+      SepR semi_sep parse_declaration (after e es)
+           (map (fun e' => xitem_decl (xe_item e')) es) (pre' ++ print_semis semis' ++ C).
+  Proof.
+    induction es as [|e2 es IH]; intros e Hok Hsep.
+    - inversion Hok as [|e0 l0 He _]; subst. destruct He as (Hi & Hpre & Hs).
+      exists (xe_pre e), (xe_semis e). split; [exact Hpre|split; [exact Hs|]].
+      unfold after. cbn [print_xentries flat_map app map].
+      destruct (xe_semis e) as [|w l] eqn:El.
+      + cbn [print_semis flat_map app]. apply SR_nil. unfold semi_sep. apply many1_fail.
+        apply semi_item_fail; [exact Hpre|apply nf_lit; reflexivity].
+      + destruct (semi_sep_many (w :: l) (xe_pre e) C Hpre Hs ltac:(discriminate)
+                    ltac:(apply nf_lit; reflexivity)) as (u & Hu).
+        eapply SR_stop; [exact Hu| |].
+        * rewrite print_semis_cons, !app_length; cbn [length of_ascii map]; lia.
+        * unfold parse_declaration. rewrite parse_ident_fail by (apply nf_lit; reflexivity). reflexivity.
+    - inversion Hok as [|e0 l0 He Hok']; subst. destruct He as (Hi & Hpre & Hs).
+      pose proof Hsep as Hsep'. cbn [xseps_ok] in Hsep'. destruct Hsep' as [Hne Hsep2].
+      destruct (IH e2 Hok' Hsep2) as (pre' & semis' & Hp' & Hs' & HS).
+      exists pre', semis'. split; [exact Hp'|split; [exact Hs'|]].
+      inversion Hok' as [|e0 l0 He2 _]; subst.
+      unfold after. cbn [print_xentries flat_map map]. fold (print_xentries es).
+      unfold print_xentry at 1. rewrite <- !app_assoc.
+      fold (after e2 es).
+      destruct (semi_sep_many (xe_semis e) (xe_pre e) (print_xditem (xe_item e2) ++ after e2 es) Hpre Hs Hne
+                  ltac:(apply xditem_first; [apply He2|reflexivity|intros; cls2])) as (u & Hu).
+      eapply SR_cons; [exact Hu| | | |exact HS].
+      + destruct (xe_semis e) as [|w l]; [congruence|].
+        rewrite print_semis_cons, !app_length; cbn [length of_ascii map]; lia.
+      + apply parse_declaration_xitem; [apply He2|apply xvend_after; assumption].
+      + rewrite app_length; lia.
+  Qed.
+
+  Lemma xblock_parse : forall b, xblock_ok b ->
+    exists Kend u, parse_rules (skip_ws (print_xblock b ++ C)) = POk (xblock_decls b) Kend /\
+                   many0 semi_ws (skip_ws Kend) = POk u C.
+  Proof.
+    intros [op lead es] (Hop & Hlead & Hes & Hsep). cbn [xb_open xb_lead xb_entries] in *.
+    unfold print_xblock, xblock_decls; cbn [xb_open xb_lead xb_entries].
+    destruct es as [|e es].
+    - cbn [print_xentries flat_map map]. rewrite app_nil_r, <- app_assoc.
+      rewrite skip_ws_wsm by (auto; apply semis_first; reflexivity).
+      assert (HC : nf (fun x => wsstart x || (x =? 59)) C) by (apply nf_lit; reflexivity).
+      destruct (lead_semis lead C Hlead HC) as (u0 & Hu0).
+      exists C, []. split.
+      + unfold parse_rules. rewrite Hu0. cbn [pbind]. apply separated_list0_nil. unfold parse_declaration.
+        rewrite parse_ident_fail by (apply nf_lit; reflexivity). reflexivity.
+      + rewrite skip_ws_id by (apply nf_lit; reflexivity). apply many0_semi_ws_none.
+    - inversion Hes as [|e0 l0 He _]; subst.
+      cbn [print_xentries flat_map]. fold (print_xentries es). unfold print_xentry at 1. rewrite <- !app_assoc.
+      fold (after e es).
+      assert (HD : nf (fun x => wsstart x || (x =? 59)) (print_xditem (xe_item e) ++ after e es))
+        by (apply xditem_first; [apply He|reflexivity|intros; cls2]).
+      rewrite skip_ws_wsm
+        by first [assumption
+                 |apply semis_first'; [reflexivity|eapply nf_imp; [|exact HD]; intros x Hx; cls]].
+      destruct (lead_semis lead _ Hlead HD) as (u0 & Hu0).
+      destruct (xentries_tail es e Hes Hsep) as (pre' & semis' & Hp' & Hs' & HS).
+      exists (pre' ++ print_semis semis' ++ C). destruct (semis_ws_many semis' Z Hs') as (u & HM). exists u. split.
+      + unfold parse_rules. rewrite Hu0. cbn [pbind map]. eapply separated_list0_R; [|exact HS].
+        apply parse_declaration_xitem; [apply He|apply xvend_after; assumption].
+      + rewrite skip_ws_wsm by (auto; apply semis_first; reflexivity). apply many0_R, HM.
+  Qed.
+End XBlock.
+
+Record xvrule := mkxvrule { xv_ws : wsp2; xv_sels : list selector; xv_block : xvblock }.
+Definition print_xvrule (v : xvrule) : text :=
+  print_sels_ws2 (xv_ws v) (xv_sels v) ++ w_sel (w_base (xv_ws v)) ++ of_ascii [123] ++
+  print_xblock (xv_block v) ++ of_ascii [125] ++ w_end (w_base (xv_ws v)).
+Definition xvrule_raw (v : xvrule) : cssruleset := mkcrs (xv_sels v) (xblock_decls (xv_block v)).
+Definition xvrule_ok (v : xvrule) : Prop :=
+  wsp2_ok (xv_ws v) /\ xv_sels v <> [] /\ forallb wf_selector (xv_sels v) = true /\
+  xblock_ok (xv_block v).
+
+Lemma print_xvrule_first : forall (P : N -> bool) v k, xvrule_ok v ->
+  (forall x, selstart x = true -> P x = false) -> nf P (print_xvrule v ++ k).
+Proof.
+  intros P [p ss b] k (_ & Hne & Hss & _) HP. cbn [xv_ws xv_sels xv_block] in *.
+  destruct ss as [|s ss]; [congruence|].
+  cbn [forallb] in Hss. apply andb_prop in Hss; destruct Hss as [Hs _].
+  unfold print_xvrule; cbn [xv_ws xv_sels xv_block print_sels_ws2]. rewrite <- !app_assoc.
+  apply sel_first; auto.
+Qed.
+
+Theorem parse_xvrule : forall v rest, xvrule_ok v ->
+  parse_ruleset (print_xvrule v ++ rest)
+  = POk (xvrule_raw v) (skip_ws (w_end (w_base (xv_ws v)) ++ rest)).
+Proof.
+  intros v rest Hv. pose proof Hv as (Hp & Hne & Hss & Hb).
+  destruct v as [p ss b]. cbn [xv_ws xv_sels xv_block] in *.
+  pose proof Hp as (Hbase & _ & _). set (bs := w_base p) in *.
+  assert (Hstart : nf wsstart (print_xvrule (mkxvrule p ss b) ++ rest))
+    by (apply print_xvrule_first; [exact Hv|intros x Hx; unfold selstart in Hx; cls]).
+  unfold parse_ruleset. cbv zeta. rewrite (skip_ws_id _ Hstart).
+  unfold print_xvrule, xvrule_raw; cbn [xv_ws xv_sels xv_block]. fold bs. rewrite <- !app_assoc.
+  destruct (sels_ok p Hp (print_xblock b ++ of_ascii [125] ++ w_end bs ++ rest) ss Hne Hss)
+    as (r1 & Hsel & Hr1). fold bs in Hsel.
+  rewrite Hsel. cbn [pbind]. rewrite Hr1. rewrite ptag_lit. cbn [pbind].
+  destruct (xblock_parse (w_end bs ++ rest) b Hb) as (Kend & u & Hrules & Hmany).
+  rewrite Hrules. cbn [pbind]. rewrite Hmany. cbn [pbind].
+  rewrite skip_ws_id by (apply nf_lit; reflexivity). rewrite ptag_lit. reflexivity.
+Qed.
+
+Inductive xvstmt :=
+| XRule (v : xvrule)
+| XJunk (j : text) (w : text).
+Definition print_xvstmt (s : xvstmt) : text :=
+  match s with XRule v => print_xvrule v | XJunk j w => j ++ w end.
+Definition print_xvsheet (ss : list xvstmt) : text := flat_map print_xvstmt ss.
+Definition xvstmt_ok (s : xvstmt) : Prop :=
+  match s with XRule v => xvrule_ok v | XJunk j w => junk_ok j /\ wsm w end.
+Definition xvsheet_ok (ss : list xvstmt) : Prop := Forall xvstmt_ok ss.
+Definition xvstmt_item (s : xvstmt) : option cssruleset :=
+  match s with XRule v => Some (xvrule_raw v) | XJunk _ _ => None end.
+Definition xvsheet_raw (ss : list xvstmt) : list cssruleset :=
+  flat_map (fun s => match s with XRule v => [xvrule_raw v] | XJunk _ _ => [] end) ss.
+
+Lemma xvsheet_many : forall ss, xvsheet_ok ss ->
+  nf wsstart (print_xvsheet ss) /\
+  forall w, wsm w -> exists rest, wsm rest /\
+    ManyR parse_statement (w ++ print_xvsheet ss) (map xvstmt_item ss) rest.
+Proof.
+  induction ss as [|s ss IH]; intros Hok.
+  - split; [exact I|]. intros w Hw. exists w. split; [exact Hw|].
+    cbn [print_xvsheet flat_map map]. rewrite app_nil_r. apply MR_nil, parse_statement_ws, Hw.
+  - inversion Hok as [|s0 ss0 Hs Hok']; subst. destruct (IH Hok') as [Hnf Hmany].
+    unfold print_xvsheet; cbn [flat_map map]. fold (print_xvsheet ss).
+    destruct s as [v|j wj]; cbn [xvstmt_ok print_xvstmt xvstmt_item] in *.
+    + assert (Hfirst : nf wsstart (print_xvrule v ++ print_xvsheet ss))
+        by (apply print_xvrule_first; [exact Hs|intros x Hx; unfold selstart in Hx; cls]).
+      split; [exact Hfirst|]. intros w Hw.
+      destruct (Hmany [] wsm_nil) as (rest & Hrest & HM). cbn [app] in HM.
+      exists rest. split; [exact Hrest|].
+      pose proof Hs as ((( _ & _ & _ & _ & _ & _ & _ & _ & _ & Hend) & _ & _) & _).
+      eapply MR_cons; [| |exact HM].
+      * unfold parse_statement. rewrite parse_ruleset_ws by assumption.
+        rewrite (parse_xvrule v _ Hs). cbn [pmap palt].
+        rewrite skip_ws_wsm by assumption. reflexivity.
+      * rewrite !app_length.
+        assert (0 < length (print_xvrule v))%nat; [|lia].
+        destruct (print_xvrule v) eqn:E; [|cbn; lia]. exfalso.
+        destruct Hs as (_ & Hne & Hss & _). unfold print_xvrule in E.
+        destruct (xv_sels v) as [|s1 ss1]; [congruence|].
+        cbn [forallb] in Hss. apply andb_prop in Hss. destruct Hss as [Hs1 _].
+        cbn [print_sels_ws2] in E. rewrite <- !app_assoc in E.
+        apply (print_selector_ne (w_nth (xv_ws v)) s1 Hs1).
+        destruct (print_selector_q (w_nth (xv_ws v)) s1); [reflexivity|discriminate].
+    + destruct Hs as [[(c & r & Ej & Hc) Hj] Hwj].
+      split; [rewrite Ej; cbn [app nf]; exact Hc|]. intros w Hw.
+      destruct (Hmany wj Hwj) as (rest & Hrest & HM).
+      exists rest. split; [exact Hrest|].
+      rewrite <- !app_assoc.
+      eapply MR_cons; [apply Hj, Hw| |exact HM].
+      rewrite Ej, !app_length. cbn [length]. lia.
+Qed.
+
+Theorem xvariant_sheet_rt : forall lead ss, wsm lead -> xvsheet_ok ss ->
+  exists rest, wsm rest /\ parse_stylesheet (lead ++ print_xvsheet ss) = POk (xvsheet_raw ss) rest.
+Proof.
+  intros lead ss Hlead Hok. destruct (xvsheet_many ss Hok) as [_ Hmany].
+  destruct (Hmany lead Hlead) as (rest & Hrest & HM). exists rest. split; [exact Hrest|].
+  unfold parse_stylesheet. rewrite (many0_R _ _ _ _ _ HM). cbn [pbind]. f_equal.
+  clear. induction ss as [|[v|j w] ss IH]; cbn [map flat_map xvstmt_item xvsheet_raw app]; [reflexivity| |];
+    unfold xvsheet_raw in IH; rewrite IH; reflexivity.
+Qed.
+
+(* the rule sets the sheet means: as written, minus the unknown declarations *)
+Definition xvsheet_meaning (ss : list xvstmt) : list cssruleset := map clean_rs (xvsheet_raw ss).
+
+(* MAIN 4: a sheet written with literals (escapes, both quotes, `;` `}` brackets inside) in
+   declaration values and in junk statements gives exactly the rules of its meaning *)
+Theorem xvariant_rules : forall lead ss, wsm lead -> xvsheet_ok ss ->
+  parse_css_rules (lead ++ print_xvsheet ss) = CssOk (rules_of (xvsheet_meaning ss)).
+Proof.
+  intros lead ss Hlead Hok. destruct (xvariant_sheet_rt lead ss Hlead Hok) as (rest & _ & H).
+  rewrite (parse_css_rules_of _ _ _ H). unfold xvsheet_meaning. rewrite rules_of_clean. reflexivity.
+Qed.
+(* ... hence two such sheets with the same meaning - and such a sheet and a CssVariants sheet with
+   the same meaning - style every document identically *)
+Theorem xvariants_agree : forall lead1 ss1 lead2 ss2,
+  wsm lead1 -> xvsheet_ok ss1 -> wsm lead2 -> xvsheet_ok ss2 ->
+  xvsheet_meaning ss1 = xvsheet_meaning ss2 ->
+  parse_css_rules (lead1 ++ print_xvsheet ss1) = parse_css_rules (lead2 ++ print_xvsheet ss2).
+Proof.
+  intros lead1 ss1 lead2 ss2 H1 Hok1 H2 Hok2 E.
+  rewrite (xvariant_rules lead1 ss1 H1 Hok1), (xvariant_rules lead2 ss2 H2 Hok2), E. reflexivity.
+Qed.
+Theorem xvariant_agrees_with_variant : forall lead1 ss1 lead2 ss2,
+  wsm lead1 -> xvsheet_ok ss1 -> wsm lead2 -> vsheet_ok ss2 ->
+  xvsheet_meaning ss1 = vsheet_meaning ss2 ->
+  parse_css_rules (lead1 ++ print_xvsheet ss1) = parse_css_rules (lead2 ++ print_vsheet ss2).
+Proof.
+  intros lead1 ss1 lead2 ss2 H1 Hok1 H2 Hok2 E.
+  rewrite (xvariant_rules lead1 ss1 H1 Hok1), (variant_rules lead2 ss2 H2 Hok2), E. reflexivity.
+Qed.
+
+Print Assumptions parse_xvrule.
+Print Assumptions xvariant_sheet_rt.
+Print Assumptions xvariant_rules.
+Print Assumptions xvariants_agree.
+Print Assumptions xvariant_agrees_with_variant.
+
+(* non-vacuity of section 8 *)
+Definition ex_xred_item : xditem := mkxditem (s2l "color") [] [([], XA (AIdent (s2l "red")))].
+Definition ex_xrule : xvrule :=
+  mkxvrule (lift_wsp (mkwsp [] [] [] [] [] [] [] [] [] [])) [sel_of "p"]
+    (mkxvblock [] [] [mkxentry ex_xitem sp1 [sp1]; mkxentry ex_xred_item [] []]).
+Definition ex_xsheet : list xvstmt := [XJunk ex_xj1 sp1; XRule ex_xrule; XJunk ex_xj2 []].
+
+Example ex_xsheet_ok : xvsheet_ok ex_xsheet.
+Proof.
+  unfold xvsheet_ok, ex_xsheet.
+  repeat (apply Forall_cons; [|]); try apply Forall_nil; cbn [xvstmt_ok].
+  - split; [apply ex_xj1_ok|unfold sp1; wsm_tac].
+  - unfold xvrule_ok, ex_xrule; cbn [xv_ws xv_sels xv_block].
+    split; [apply wsp0_ok|split; [discriminate|split; [reflexivity|]]].
+    unfold xblock_ok; cbn [xb_open xb_lead xb_entries xseps_ok xe_semis].
+    split; [apply wsm_nil|split; [apply Forall_nil|split]].
+    + apply Forall_cons; [|apply Forall_cons; [|apply Forall_nil]];
+        unfold xentry_ok; cbn [xe_item xe_pre xe_semis].
+      * split; [apply ex_xitem_ok|split; [unfold sp1; wsm_tac|
+          apply Forall_cons; [unfold sp1; wsm_tac|apply Forall_nil]]].
+      * split; [|split; [apply wsm_nil|apply Forall_nil]].
+        unfold xditem_ok, ex_xred_item; cbn [xdi_name xdi_w1 xdi_val].
+        split; [vm_compute; reflexivity|split; [wsm_tac|split; [discriminate|split; [xatoms_tac|
+          split; [vm_compute; reflexivity|split; vm_compute; reflexivity]]]]].
+    + split; [discriminate|exact I].
+  - split; [apply ex_xj2_ok|apply wsm_nil].
+Qed.
+Example ex_xsheet_text : print_xvsheet ex_xsheet =
+  css "@import ""a\""b;c.css""; p{Foo: ""a\"";b}"" 'c\'d;' url( "";)"" ) ; color:red}" ++ ex_xj2.
+Proof. vm_compute. reflexivity. Qed.
+Example ex_xsheet_meaning : xvsheet_meaning ex_xsheet = vsheet_meaning [VRule ex_red_rule].
+Proof. vm_compute. reflexivity. Qed.
+(* by the theorem: the sheet with the literal-laden junk and unknown declaration styles like p{color:red} *)
+Example ex_xsheet_by_theorem :
+  parse_css_rules
+    (css "@import ""a\""b;c.css""; p{Foo: ""a\"";b}"" 'c\'d;' url( "";)"" ) ; color:red}" ++ ex_xj2)
+  = parse_css_rules (css "p{color:red}").
+Proof.
+  rewrite <- ex_xsheet_text.
+  assert (T2 : css "p{color:red}" = print_vsheet [VRule ex_red_rule]) by (vm_compute; reflexivity).
+  rewrite T2.
+  apply (xvariant_agrees_with_variant [] ex_xsheet [] [VRule ex_red_rule] wsm_nil ex_xsheet_ok wsm_nil).
+  - apply Forall_cons; [exact ex_red_rule_ok|apply Forall_nil].
+  - exact ex_xsheet_meaning.
+Qed.
+Example ex_xsheet_computed : exists r,
+  parse_css_rules (print_xvsheet ex_xsheet) = CssOk [r] /\ parse_css_rules (css "p{color:red}") = CssOk [r].
+Proof. eexists. split; vm_compute; reflexivity. Qed.
+
+(* ------------------------------------------------------------------ *)
+(* 9. the one place where the VALUE of a literal matters: `content`.  The declared text is the
+   unescaped body (an escaped quote stays inside it, the text after it is not cut off) *)
+Theorem content_literal_decl : forall w1 w q items,
+  xitem_decl (mkxditem p_content w1 [(w, XS q items)]) = mkdecl (DContent (body items)) false.
+Proof.
+  intros w1 w q items. unfold xitem_decl. cbn [xdi_name xdi_val xtoks_of map snd xatom_tok].
+  assert (E : forall t, strip_important [TString t] = ([TString t], false)) by reflexivity.
+  rewrite E. cbn [fst snd].
+  assert (D : forall t, decl_of (of_ascii (map lowerN p_content)) [TString t] = DContent (t ++ []))
+    by (intros t; vm_compute; reflexivity).
+  rewrite D, app_nil_r. reflexivity.
+Qed.
+Theorem content_literal_parse : forall w1 w q items K,
+  wsm w1 -> wsm w -> quote_okb q = true -> items_okb q items = true -> vend K ->
+  parse_declaration (of_ascii p_content ++ w1 ++ of_ascii [58] ++ w ++ lit q items ++ K)
+  = POk (mkdecl (DContent (body items)) false) K.
+Proof.
+  intros w1 w q items K Hw1 Hw Hq Hi HK.
+  rewrite <- (content_literal_decl w1 w q items).
+  rewrite <- (parse_declaration_xitem (mkxditem p_content w1 [(w, XS q items)]) K); [|
+    unfold xditem_ok; cbn [xdi_name xdi_w1 xdi_val];
+    split; [reflexivity|split; [exact Hw1|split; [discriminate|split; [|split; [reflexivity|split; reflexivity]]]]];
+    apply Forall_cons; [cbn [fst snd xatom_okb]; split; [exact Hw|rewrite Hq, Hi; reflexivity]|apply Forall_nil]
+    |exact HK].
+  unfold print_xditem; cbn [xdi_name xdi_w1 xdi_val]. rewrite print_xatoms_cons.
+  cbn [print_xatoms flat_map print_xatom]. rewrite app_nil_r, <- !app_assoc. reflexivity.
+Qed.
+Print Assumptions content_literal_parse.
+
+Example ex_content_computed : exists sel,
+  parse_css_rules (css "p::before{content:""a\""b;}""}") =
+    CssOk [mkrs sel [mksd (SContent (css "a""b;}")) false]] /\
+  parse_css_rules (css "p::before{content:'a\'b;}' ""c""}") =
+    CssOk [mkrs sel [mksd (SContent (css "a'b;}c")) false]].
+Proof. eexists. split; vm_compute; reflexivity. Qed.
